@@ -385,12 +385,14 @@ def ndFirstIndex : List (Plan α) → List Nat
   | .fixed pos :: r => pos :: ndFirstIndex r
   | .free _ _ :: r => 0 :: ndFirstIndex r
 
-/-- `InterpND::linear` -/
+/-- `InterpND::linear`.  The loops run over `self.ndim()` dimensions — 0 for a single value, whatever
+the array's own dimensionality; `values_view.first()` is then the element at index 0 of every dimension
+that was not looked at -/
 def linearN (m : ND α) (pt : List α) : Res α :=
-  let n := m.shape.length
+  let n := m.ndim
   (ndPlan n m.grid pt).bind fun plan =>
     if ndViewLen plan m.shape = 1 then
-      (match m.get (ndFirstIndex plan) with
+      (match m.get (ndFirstIndex plan ++ List.replicate (m.shape.length - plan.length) 0) with
        | .ok v => .ok v
        | _ => .err .extract)
     else
